@@ -83,14 +83,14 @@ mod verif_c19_prio2_verif {
     }
 
     #[kani::proof]
-    #[kani::unwind(12)]
+    #[kani::unwind(40)]
     #[kani::stub(crate::polynomial::poly_interpret_eval, pie_stub)]
     #[kani::stub(<crate::fp::FP32 as crate::fp::ops::FieldOps<u32>>::mul, crate::verif_common::mul32_id_stub)]
     #[kani::stub(alloc::fmt::format, crate::verif_common::format_stub)]
     fn prio2_verification_layout_d1() { layout::<1, 2, 6>(); }
 
     #[kani::proof]
-    #[kani::unwind(12)]
+    #[kani::unwind(40)]
     #[kani::stub(crate::polynomial::poly_interpret_eval, pie_stub)]
     #[kani::stub(<crate::fp::FP32 as crate::fp::ops::FieldOps<u32>>::mul, crate::verif_common::mul32_id_stub)]
     #[kani::stub(alloc::fmt::format, crate::verif_common::format_stub)]
